@@ -159,8 +159,12 @@ def _init_line(rng, h):
     return " ".join(toks), (rp if (mask >> 17) & 1 else None)
 
 
-def _csv(rng):
+def _csv(rng, appif=None):
     ents = []
+    if appif:
+        # a link-local server on the interface only the application's socket functions know
+        for _ in range(rng.choice([1, 1, 2])):
+            ents.append("[" + T.v6(rng, ll=True) + "]" + rng.choice(["", ":53", ":5353"]) + "%" + appif)
     for _ in range(rng.randint(0, 5)):
         k = rng.random()
         if k < 0.3:
@@ -190,11 +194,18 @@ def gen_chan(rng, tier):
         line, rp = _init_line(rng, 0)
         _files(rng, ops, rp)
         ops.append(line)
+        # application socket functions whose interface callbacks know one more interface than the libc: a duplicate has
+        # to resolve link-local servers through them as well
+        appif = None
+        if rng.random() < 0.25:
+            appif = rng.choice(["vnet7", "tun_app0"])
+            ops.append("appif 0 %s %d" % (T.hx(appif), rng.choice([977, 1200])))
+            ops.append("setcsv 0 " + T.hx(_csv(rng, appif)))
         # user setters
         for _ in range(rng.choice([0, 0, 1, 2])):
             r = rng.random()
             if r < 0.5:
-                ops.append("setcsv 0 " + T.hx(_csv(rng)))
+                ops.append("setcsv 0 " + T.hx(_csv(rng, appif if rng.random() < 0.7 else None)))
             elif r < 0.75:
                 ops.append("setports 0 " + (",".join("%s/%s/%s" % (_v4hex(rng) if rng.random() < 0.6 else _v6hex(rng), T.port(rng), T.port(rng))
                                                       for _ in range(rng.randint(0, 3))) or "-"))
